@@ -204,6 +204,22 @@ Theorem C08_worst_metric_meaning : forall j rows,
 Proof. intros j rows. split; [intros v; apply worst_metric_is_max|apply worst_metric_none]. Qed.
 Print Assumptions C08_worst_metric_meaning.
 
+(* keep_n_best = 1 (the default): the improvement flag is raised exactly when the best individual
+   changed (the archive became non-empty, or its only member was replaced by a different vector) *)
+Theorem C08_hof_improved_iff_changed : forall n pops pop,
+  1 <= n -> shown_ok (concat (pops ++ [pop])) ->
+  (forall s, In s (concat (pops ++ [pop])) -> length (vals (fitness s)) = n) ->
+  let st := keeper_run (AHof 1) n (keeper_init n) pops in
+  let st' := keeper_append (AHof 1) n st pop in
+  any_improved st' = true <->
+  match items (k_arch st), items (k_arch st') with
+  | [], _ :: _ => True
+  | h :: _, h' :: _ => identical (vals (fitness h)) (vals (fitness h')) = false
+  | _, [] => False
+  end.
+Proof. exact hof_improved_iff_changed. Qed.
+Print Assumptions C08_hof_improved_iff_changed.
+
 (* ------------------------------------------------------------------------------------ *)
 (* the oracle evaluated on observed behaviour (Keeper.holds_b) decides what it says      *)
 (* ------------------------------------------------------------------------------------ *)
